@@ -28,6 +28,8 @@ pub struct Outcome {
     pub steps_done: usize,
     pub digests: Vec<u64>,
     pub new_cyclic_windows: Vec<(usize, [u64; N_CB], [u64; N_CB])>,
+    /// abstract state after the last operation (before the epilogue)
+    pub state_hash: u64,
 }
 
 #[derive(Clone, Copy, Default)]
@@ -301,6 +303,7 @@ pub fn run_history(h: &History, cfg: &RunCfg, fault: Option<Fault>, fault2: Opti
             break;
         }
     }
+    let state_hash = oracle::current_state_hash(wd);
     if !wd.failed() && wd.harness_errors.borrow().is_empty() {
         epilogue(wd);
         if !wd.failed() && cfg.leak_check && !wd.degraded.get() && wd.fault_fired.get() == 0 {
@@ -318,6 +321,7 @@ pub fn run_history(h: &History, cfg: &RunCfg, fault: Option<Fault>, fault2: Opti
         steps_done: steps,
         digests: wd.quiet_digests.borrow().clone(),
         new_cyclic_windows: windows,
+        state_hash,
         ..Default::default()
     };
     for (i, c) in wd.cb_counts.iter().enumerate() {
@@ -434,6 +438,10 @@ impl Shard {
     }
 }
 
+fn only_f1_early(args: &Args) -> Option<Fault> {
+    args.get("--fault").map(parse_fault).and_then(|x| x.0)
+}
+
 fn parse_fault(s: &str) -> (Option<Fault>, Option<Fault>) {
     let mut it = s.split(',').map(|p| {
         let mut q = p.split(':');
@@ -538,6 +546,19 @@ pub fn main(args: &Args) -> i32 {
     sh.rep.set_add("features", feature_string());
     sh.rep.set_add("profile", if cfg!(debug_assertions) { "debug" } else { "release" });
 
+    if gen == "exhaust" {
+        let variant = args.str("--variant", "weak");
+        sh.base_args.extend(["--gen".to_string(), "exhaust".to_string()]);
+        if let Some(path) = args.get("--path") {
+            sh.cfg.verbose = true;
+            crate::exhaust::replay(&mut sh, &variant, path, only_f1_early(args));
+        } else {
+            crate::exhaust::run(&mut sh, args.usize("--depth", 4), &variant, shard, nshards, args.u64("--max-runs", 2_000_000), faults != "none");
+        }
+        emit_stats(&mut sh.rep);
+        sh.rep.emit();
+        return 0;
+    }
     if gen == "threads" {
         return crate::threads::main(args, seed, &mode, sh);
     }
